@@ -3,7 +3,7 @@ import os, sys, random
 from . import common, tlc
 
 INVS = ['AddOK', 'SubOK', 'NegOK', 'MulOK', 'CmpOK', 'DivOK', 'DecOK', 'DivIdent', 'NegIdent', 'MulIdent',
-        'BitIdent', 'ShiftIdent', 'DecRound', 'OvfOK', 'LimbOK']
+        'BitIdent', 'ShiftIdent', 'DecRound', 'OvfOK', 'LimbOK', 'SmallDivOK', 'MulOvfOK']
 
 
 def grid(w, seed, extra):
